@@ -21,7 +21,7 @@ func runC02(ctx *core.Ctx) {
 		"non-trivial = at least 2 deliveries and at least one delivery whose started-count was below the total (early), one late row demanded or forbidden (late), one garbage row (garbage); distinct by (SQL, rows, feed) hash")
 	ctx.Assume("single producer; block strategy", "the started-Emit counter read inside the sink is an upper bound of the rows processed, so the no-early-firing condition is necessary, not sufficient",
 		"the zone where the statement's two lateness criteria disagree (ts < watermark−AL but window_end+AL > watermark) is left unconstrained (DESIGN §5 C02)")
-	n := ctx.N(24, 500)
+	n := ctx.N(36, 1500)
 	ctx.Cases("c02early", n, 4*workers(), func(i int, r *rand.Rand) {
 		var c *evCase
 		ref := core.CaseRef{Stream: "c02early", Index: i}
@@ -36,11 +36,11 @@ func runC02(ctx *core.Ctx) {
 		c.Feed = pick(r, []string{"paced", "step", "step"})
 		execC02Early(ctx, c)
 	})
-	nl := ctx.N(18, 400)
+	nl := ctx.N(30, 1500)
 	ctx.Cases("c02late", nl, 4*workers(), func(i int, r *rand.Rand) {
 		execC02Late(ctx, genC02Late(core.CaseRef{Stream: "c02late", Index: i}, r))
 	})
-	ng := ctx.N(12, 300)
+	ng := ctx.N(18, 900)
 	ctx.Cases("c02garbage", ng, 4*workers(), func(i int, r *rand.Rand) {
 		execC02Garbage(ctx, core.CaseRef{Stream: "c02garbage", Index: i}, r)
 	})
